@@ -48,7 +48,7 @@ def gen_case(rng):
         return tag[0]
     ordered = rng.random() < 0.35
     terms = []
-    for mid in (10, 11, 23, 29):
+    for mid in (10, 11, 23, 29, 33):
         if rng.random() < (0.9 if mid in (10, 11) else 0.6):
             for _ in range(rng.randint(1, 2) if not ordered else rng.randint(1, 3)):
                 mask = 255 if rng.random() < 0.7 else rng.randrange(256)
@@ -58,7 +58,7 @@ def gen_case(rng):
                 terms.append({"kind": "call", "mid": mid, "opener": "next" if ordered else rng.choice(["each", "each", "some"]),
                               "pat": {"matcher": mask, "dbg": fresh(), "ops": ops}})
     # T::m2 (mid 2) is provided AND has a registered real function (unmock_with entry at its own position); T::m3 is provided only
-    provided = rng.sample([14, 15, 16, 17, 18, 19, 24, 30, 2, 3], rng.randint(0, 2))
+    provided = rng.sample([14, 15, 16, 17, 18, 19, 24, 30, 34, 2, 3], rng.randint(0, 2))
     for mid in provided:
         how = rng.choice(["dfl", "dfl", "ret", "partial_mask"])
         if how == "dfl":
@@ -80,7 +80,7 @@ def gen_case(rng):
         i = rng.choice(live)
         r = rng.random()
         if r < 0.4:
-            m = rng.choice([10, 11, 10, 11, 23, 25, 29, 31])
+            m = rng.choice([10, 11, 10, 11, 23, 25, 29, 31, 33])
             evs.append({"base": ("call", i, m, rng.randrange(8))})
             if m in D.CONSUMING:
                 live.remove(i)
@@ -108,7 +108,8 @@ def directed_cases():
                     terms = [{"kind": "call", "mid": 10, "opener": "each", "pat": {"matcher": 255, "dbg": 1, "ops": [("ans", 2001 if reentrant else 1)]}},
                              {"kind": "call", "mid": 11, "opener": "each", "pat": {"matcher": 255, "dbg": 2, "ops": [("ret", 2)]}},
                              {"kind": "call", "mid": 23, "opener": "each", "pat": {"matcher": 255, "dbg": 3, "ops": [("ret", 3)]}},
-                             {"kind": "call", "mid": 29, "opener": "each", "pat": {"matcher": 255, "dbg": 4, "ops": [("ret", 4)]}}]
+                             {"kind": "call", "mid": 29, "opener": "each", "pat": {"matcher": 255, "dbg": 4, "ops": [("ret", 4)]}},
+                             {"kind": "call", "mid": 33, "opener": "each", "pat": {"matcher": 255, "dbg": 5, "ops": [("ret", 5)]}}]
                     evs = [{"base": ("clone", 0)}]
                     i = 1 if on_clone else 0
                     evs.append({"base": ("call", i, m, a)})
@@ -149,7 +150,7 @@ def run(tier, seed):
             if e["base"][0] == "call":
                 m = e["base"][2]
                 dist["call:" + {10: "r0", 11: "r1", 14: "p_ref", 15: "p_mut", 16: "p_val", 17: "p_rc(sole)", 18: "p_arc(sole)", 23: "r_rc(sole)", 27: "p_rc(sole+weak)", 28: "p_arc(sole+weak)", 24: "p_rc2(sole)", 25: "r_rc(kept)", 26: "p_rc2(kept)",
-                                 19: "p_pin", 21: "p_rc(kept)", 22: "p_arc(kept)", 29: "r_arc(sole)", 30: "p_arc2(sole)", 31: "r_arc(kept)", 32: "p_arc2(kept)", 2: "T::m2(default+real fn)", 3: "T::m3(default)"}.get(m, str(m))] += 1
+                                 19: "p_pin", 21: "p_rc(kept)", 22: "p_arc(kept)", 29: "r_arc(sole)", 30: "p_arc2(sole)", 33: "r_val", 34: "p_val2", 31: "r_arc(kept)", 32: "p_arc2(kept)", 2: "T::m2(default+real fn)", 3: "T::m3(default)"}.get(m, str(m))] += 1
                 if m >= 14:
                     dist[f"body-calls={e['base'][3] % 4}"] += 1
     cov = {"obligations": len(obligations) + 1, "discharged": len(obligations) + (0 if bad else 1),
